@@ -50,10 +50,10 @@ type End struct {
 
 // Lane = a link used in one protocol flavour.
 type Lane struct {
-	L     *Link
-	Kind  string // v1 | alias | v2
-	Ends  [2]End // Ends[0] on L.X, Ends[1] on L.Y
-	name  string
+	L    *Link
+	Kind string // v1 | alias | v2
+	Ends [2]End // Ends[0] on L.X, Ends[1] on L.Y
+	name string
 }
 
 func (l *Lane) ep(i int) *ibctesting.Endpoint {
@@ -106,10 +106,12 @@ type TPkt struct {
 	Credited   int
 	Retried    bool // a timed-out forward hop that was re-sent in the same transaction
 	GaveUp     bool // forward hop whose failure was turned into an error ack for its parent
+	WantFinal  string // root of a forward route: the final receiver named in the memo
+	WantHops   int    // root of a forward route: number of forward hops named in the memo
 }
 
-func (p *TPkt) src() int { return p.Lane.Ends[p.SrcSide].Chain }
-func (p *TPkt) dst() int { return p.Lane.Ends[1-p.SrcSide].Chain }
+func (p *TPkt) src() int      { return p.Lane.Ends[p.SrcSide].Chain }
+func (p *TPkt) dst() int      { return p.Lane.Ends[1-p.SrcSide].Chain }
 func (p *TPkt) srcID() string { return p.Lane.Ends[p.SrcSide].ID }
 func (p *TPkt) dstID() string { return p.Lane.Ends[1-p.SrcSide].ID }
 func (p *TPkt) String() string {
@@ -132,23 +134,24 @@ func (p *TPkt) inflight() bool {
 
 // Sim is a world of chains with transfer lanes, the truth log and the ledger model.
 type Sim struct {
-	C      *kit.Check
-	W      *kit.World
-	Ch     []*kit.Chain
-	R      *kit.Rng
-	Links  []*Link
-	Lanes  []*Lane
-	Pkts   []*TPkt
-	Focus  string
-	trace  []string
-	paths  []map[string]string              // per chain: bank denom -> full path (model knowledge)
-	model  []map[string]map[string]sdkmath.Int // per chain: address -> denom -> expected balance
-	native []map[string]sdkmath.Int          // per chain: native denom -> supply at start
-	curRelay *TPkt
-	curKind  string
-	pendingV2 *ftpd
-	hist   [][]sdk.Msg
-	broken map[string]bool
+	C           *kit.Check
+	W           *kit.World
+	Ch          []*kit.Chain
+	R           *kit.Rng
+	Links       []*Link
+	Lanes       []*Lane
+	Pkts        []*TPkt
+	Focus       string
+	trace       []string
+	paths       []map[string]string                 // per chain: bank denom -> full path (model knowledge)
+	model       []map[string]map[string]sdkmath.Int // per chain: address -> denom -> expected balance
+	native      []map[string]sdkmath.Int            // per chain: native denom -> supply at start
+	curRelay    *TPkt
+	curKind     string
+	pendingV2   *ftpd
+	hist        [][]sdk.Msg
+	broken      map[string]bool
+	grants      map[string]bool // "<chain>|<granter acct>|<grantee acct>" -> live MsgTransfer grant
 	observeOnly bool
 	// accounts whose receives are made to fail
 	Routes []*TPkt // root packets that carried a forward memo
@@ -184,11 +187,13 @@ func Triangle() Topology {
 	return Topology{Chains: 3, Links: [][2]int{{0, 1}, {1, 2}, {2, 0}}, V2On: map[int]bool{0: true}}
 }
 
-func Line2() Topology { return Topology{Chains: 2, Links: [][2]int{{0, 1}}, V2On: map[int]bool{0: true}} }
+func Line2() Topology {
+	return Topology{Chains: 2, Links: [][2]int{{0, 1}}, V2On: map[int]bool{0: true}}
+}
 
 func NewSim(c *kit.Check, r *kit.Rng, topo Topology) *Sim {
 	w := kit.NewWorld(c.T, topo.Chains)
-	s := &Sim{C: c, W: w, Ch: w.Chains, R: r, Focus: c.Prop, broken: map[string]bool{}}
+	s := &Sim{C: c, W: w, Ch: w.Chains, R: r, Focus: c.Prop, broken: map[string]bool{}, grants: map[string]bool{}}
 	for i, lk := range topo.Links {
 		a, b := s.Ch[lk[0]].TestChain, s.Ch[lk[1]].TestChain
 		p := ibctesting.NewTransferPath(a, b)
@@ -312,7 +317,7 @@ func (s *Sim) pathOf(chain int, bank string) string {
 type SendOpt struct {
 	Lane     *Lane
 	SrcSide  int
-	Sender   int // account index on the source chain
+	Sender   int    // account index on the source chain
 	Denom    string // bank denom on the source
 	Amt      int64
 	Receiver string
@@ -527,7 +532,9 @@ type ftpd struct {
 	Memo     string `json:"memo"`
 }
 
-func pktKey(chain int, id string, seq uint64) string { return strconv.Itoa(chain) + "|" + id + "|" + strconv.FormatUint(seq, 10) }
+func pktKey(chain int, id string, seq uint64) string {
+	return strconv.Itoa(chain) + "|" + id + "|" + strconv.FormatUint(seq, 10)
+}
 
 func (s *Sim) laneFor(chain int, id, kind string) (*Lane, int) {
 	for _, l := range s.Lanes {
